@@ -39,7 +39,7 @@ func init() {
 			Assume: []string{"a batch that is dropped as unconvertible keeps status 0 forever: recorded finding, reported by signature",
 				"API paging runs against the real srv.APIServer on a loopback port after the chain is synced"},
 			Profiles: func(c *Ctx) []modelParams {
-				ps := featProfiles(c, 3, 16, 3, "c03", "c13", "c16", "c17-final")
+				ps := featProfiles(c, 4, 16, 3, "c03", "c13", "c16", "c17-final")
 				ps = append(ps, modelParams{Seed: c.Seed*1000 + 700, Profile: "mixed", Features: []string{"quiet", "overflow-conversion"}, Upto: 0})
 				// history writes fail once (the block is rolled back and applied again): what the history says must
 				// still be what happened - also for the payout rows of snapshot blocks
